@@ -185,6 +185,29 @@ def s10():
     return "S10-shared-lock", src
 
 
+def s11(first):
+    """two pending readers of different kinds on one thread channel; the first abandons its wait"""
+    if first == "select":
+        r1 = "(try (ev/with-deadline 1 (ev/select tc)) ([e] :timed-out))"
+        r2 = "(ev/take tc)"
+    else:
+        r1 = "(try (ev/with-deadline 1 (ev/take tc)) ([e] :timed-out))"
+        r2 = "(ev/select tc)"
+    src = HEADER.format(mk=MSG["num"]) + """
+(def tc (ev/thread-chan 0)) (def res (ev/thread-chan 4)) (def go (ev/thread-chan 1)) (def fin (ev/thread-chan 0))
+# the first thread stays alive (blocked on `fin`) so that its stale entry does not point at a dead thread
+(ev/thread (fn [[tc res go fin]] (def r %s) (ev/give res [:first r]) (ev/give go true) (ev/take fin)) [tc res go fin] :n)
+(ev/thread (fn [[tc res]] (def r %s) (ev/give res [:second (if (indexed? r) [(r 0) (r 2)] r)])) [tc res] :n)
+(ev/take go)
+(ev/sleep 2)
+(ev/give tc 777)
+(def a (ev/take res)) (def b (ev/take res))
+(print "got " (show (sort @[a b])))
+(os/exit 0)
+""" % (r1, r2)
+    return "S11-stale-%s-then-other-reader" % first, src
+
+
 def parse_j(text):
     return text
 
@@ -249,6 +272,10 @@ def oracle(name, out):
     elif name.startswith("S9"):
         if got != ":through-inner":
             return ("wrong-delivery", "got %s" % got)
+    elif name.startswith("S11"):
+        want = "@[[:first :timed-out] [:second 777]]" if "stale-select" in name else "@[[:first :timed-out] [:second [:take 777]]]"
+        if got != want:
+            return ("wrong-delivery", "got %s want %s" % (got, want))
     elif name.startswith("S10"):
         if got != "@[0 1]":
             return ("lock", "got %s" % got)
@@ -412,14 +439,15 @@ def main():
         scen = []
         if chk.quick:
             scen += [s1(2, 0, "num"), s1(2, 1, "tab"), s2(1, 0), s3(1, 0), s4(), s5("reader"), s5("writer"), s6(),
-                     s7("returns"), s8(), s9(), s10()]
+                     s7("returns"), s8(), s9(), s10(), s11("select"), s11("take")]
             plan = {"bound": 2, "max_exec": 2500}
         else:
             for k in (1, 2, 3):
                 for cap in (0, 1, 2):
                     scen.append(s1(k, cap, "num"))
             scen += [s1(2, 1, "str"), s1(2, 0, "tup"), s1(2, 1, "tab"), s2(1, 0), s2(2, 1), s3(2, 0), s3(2, 1), s4(),
-                     s5("reader"), s5("writer"), s6(), s7("returns"), s7("errors"), s8(), s9(), s10()]
+                     s5("reader"), s5("writer"), s6(), s7("returns"), s7("errors"), s8(), s9(), s10(),
+                     s11("select"), s11("take")]
             plan = {"bound": 2, "max_exec": 40000}
         only = chk.args.only
         if only:
